@@ -21,9 +21,9 @@ import (
 // hold after every reconcile: no canary pod created and no promotion by time while paused (annotation or
 // condition), state / reason / conditions following the annotations, resumption on unpause.
 func TestC08Toggles(t *testing.T) {
-	rec := evid.New("TestC08Toggles", "C08", "complete enumeration of the sequences of 1-3 operations from {pause as kubectl-eds does (paused=true, unpaused=false), unpause (paused=false, unpaused=true), canary-paused=true alone, both annotations removed} on a running canary of a 3-node cluster, in auto (duration 5m) and manual validation mode, two fair rounds after each operation, then ten minutes pass; monitors paused-frozen, promotion-rule, status-function, canary-verdict after every reconcile; non-trivial = the sequence pauses again after an unpause; distinct by sequence")
+	rec := evid.New("TestC08Toggles", "C08", "complete enumeration of the sequences of 1-3 operations from {pause as kubectl-eds does (paused=true, unpaused=false), unpause (paused=false, unpaused=true), canary-paused=true alone, both annotations removed, template reverted under a frozen rollout and applied again} on a running canary of a 3-node cluster, in auto (duration 5m) and manual validation mode, two fair rounds after each operation, then ten minutes pass; monitors paused-frozen, promotion-rule, status-function, canary-verdict after every reconcile; non-trivial = the sequence pauses again after an unpause; distinct by sequence")
 	shard, shards := envInt("VERIF_SHARD", 0), envInt("VERIF_SHARDS", 1)
-	ops := []string{"pause", "unpause", "pause-only", "clear"}
+	ops := []string{"pause", "unpause", "pause-only", "clear", "abort-reapply"}
 	var seqs [][]string
 	for _, a := range ops {
 		seqs = append(seqs, []string{a})
@@ -55,7 +55,7 @@ func TestC08Toggles(t *testing.T) {
 func c08Toggle(rec *evid.Rec, f fataler, auto bool, seq []string) {
 	desc := fmt.Sprintf("auto=%v sequence=%s", auto, strings.Join(seq, ","))
 	var viol []mon.V
-	w := &World{rec: rec, cfg: WorldCfg{Monitors: mon.Of("paused-frozen", "promotion-rule", "status-function", "canary-verdict", "condition-clock", "no-panic"), Property: "C08"}, H: mon.NewHistory(), RSSeen: map[string]bool{}, RolesSynced: map[string]bool{}, Facts: map[string]int{}, lastSyncAt: map[string]time.Time{}, Det: true}
+	w := &World{rec: rec, cfg: WorldCfg{Monitors: mon.Of("paused-frozen", "promotion-rule", "status-function", "canary-verdict", "condition-clock", "canary-latch", "no-panic"), Property: "C08"}, H: mon.NewHistory(), RSSeen: map[string]bool{}, RolesSynced: map[string]bool{}, Facts: map[string]int{}, lastSyncAt: map[string]time.Time{}, Det: true}
 	w.OnViolation = func(vs []mon.V) { viol = append(viol, vs...) }
 	w.C = sim.New(sim.Options{})
 	for i := 0; i < 3; i++ {
@@ -109,6 +109,14 @@ func c08Toggle(rec *evid.Rec, f fataler, auto bool, seq []string) {
 		case "clear":
 			set(oracle.AnnCanaryPaused, "-")
 			set(oracle.AnnCanaryUnpaused, "-")
+		case "abort-reapply":
+			// the template goes back to the active version while the rollout is frozen (the canary's replica set and
+			// pods survive), then the same new template is applied again
+			set(oracle.AnnRolloutFrozen, "true")
+			w.editTemplate(k, 'A')
+			rounds(2, "c08 aborted")
+			w.editTemplate(k, 'B')
+			set(oracle.AnnRolloutFrozen, "false")
 		}
 		rounds(2, "c08 after "+op)
 	}
